@@ -5,4 +5,5 @@ Emit(S) == ndJsonSerialize(IOEnv.OUT_FILE, SetToSeq(S)) /\ (TRUE \/ phase = "")
 EmitAll == Emit({ [op |-> p, arr |-> a, form |-> "float"] : p \in TwinPairs, a \in Arrangements }
                 \cup { [op |-> p, arr |-> a, form |-> f] : p \in (MetricPairs \cup EstimatorPairs \cup ConversionPairs) \ AsGivenPairs, a \in { x \in Arrangements : Len(x) <= 2 }, f \in Forms \ {"float", "near-unit"} }
                 \cup { [op |-> p, arr |-> a, form |-> "near-unit"] : p \in AsGivenPairs, a \in { x \in Arrangements : Len(x) <= 2 } })
+NsThorough == {1, 2, 5, 7}
 =============================================================================
